@@ -14,6 +14,7 @@ mod c11;
 mod c13;
 mod c14;
 mod c15;
+mod c16;
 mod c17;
 mod c18;
 mod smoke;
@@ -29,6 +30,7 @@ fn main() {
         "c13" => c13::run(&args, &mut rep),
         "c14" => c14::run(&args, &mut rep),
         "c15" => c15::run(&args, &mut rep),
+        "c16" => c16::run(&args, &mut rep),
         "c17" => c17::run(&args, &mut rep),
         "c18" => c18::run(&args, &mut rep),
         "c18-smoke" => std::process::exit(c18::smoke_child(args.extra.first().map_or("", String::as_str))),
